@@ -34,7 +34,7 @@ typedef struct {
     const char *name; char *raw; int p, nargs, nlist; long a[MAXARGS]; long *l;
 } ev_t;
 static ev_t *EV; static long EVCAP = 0; static atomic_long SEQ; static atomic_int OVER;
-static int LOG_ON = 0; static atomic_long IDLE;
+static int LOG_ON = 0; static atomic_long IDLE; static const char *STREAM = 0;
 static __thread int self_pnum = -1;
 static __thread int pending_loop = 0;
 static int PERT = 0; static unsigned PSEED = 1; static __thread unsigned prs = 0;
@@ -43,6 +43,14 @@ static char FOCUS[32]; static int FOCUS_PCT = 0, FOCUS_US = 0;
 int  slu_verif_self(void) { return self_pnum; }
 void slu_verif_set_self(int p) { self_pnum = p; pending_loop = 0; prs = 0; }
 
+/* With VERIF_STREAM=<file> in the environment an unmodified program linked with this runtime (the
+   repository's own test drivers and examples) records every factorization it performs: logging is
+   switched on at start-up and the events of each factorization are appended to the file at its Wrap. */
+__attribute__((constructor)) static void vrt_autostart(void)
+{
+    const char *f = getenv("VERIF_STREAM");
+    if (f && *f) { STREAM = f; vrt_log_enable(1); if (getenv("VERIF_PERTURB")) vrt_perturb(atoi(getenv("VERIF_PERTURB")), 12345u); }
+}
 void vrt_log_enable(int on)
 {
     if (on && !EV) {
@@ -114,6 +122,12 @@ void slu_verif_ev(const char *name, int pnum, int nargs, const long *args,
 	}
     }
     emit(name, pnum, nargs, args, list, (long) nlist);
+    if (STREAM && name[0] == 'W' && !strcmp(name, "Wrap")) {    /* end of a factorization: all workers are joined */
+	FILE *sf = fopen(STREAM, "a");
+	if (sf) { vrt_log_dump(sf); fclose(sf); }
+	vrt_log_reset();
+	return;
+    }
     if (FOCUS_PCT && FOCUS[0] == name[0] && !strcmp(FOCUS, name)) {
 	if (!prs) prs = PSEED * 2654435761u + (unsigned)(pnum + 2) * 40503u + 1u;
 	prs = prs * 1103515245u + 12345u;
